@@ -62,11 +62,17 @@ def _worker(arg):
                            backend='z3', ms=0)
                 out['vcs'].append(rec)
                 continue
-            short = n_unknown >= 3 and tier != 'thorough'
+            short = n_unknown >= 2 and tier != 'thorough'
+            if n_unknown >= 6 and tier != 'thorough':
+                # six obligations of this contract are already undischarged (reported): the rest is not attempted
+                rec.update(verdict='unknown', backend='-', ms=0, detail='not attempted: 6 obligations of this contract '
+                           'are already undischarged', all=None, ematch=None)
+                out['vcs'].append(rec)
+                continue
             r = solve.check_valid(vc.pc, vc.goal, all_backends=(tier == 'thorough'),
-                                  z3_timeout_ms=3000 if short else getattr(chk, 'z3_timeout_ms', None),
+                                  z3_timeout_ms=1000 if short else getattr(chk, 'z3_timeout_ms', None),
                                   ematch_probe=probe, short=short, cvc5_first=bool(getattr(chk, 'cvc5_first', False)))
-            if r['verdict'] == 'unknown':
+            if r['verdict'] != 'proved':
                 n_unknown += 1
             rec.update(verdict=r['verdict'], backend=r['backend'], ms=r['ms'], detail=r['detail'], all=r.get('all'),
                        ematch=r.get('ematch'))
